@@ -4,7 +4,8 @@ nested switch), and as a flat instruction table for the reference interpreter in
 
 Statements ("atoms"):  Y yield, W wait, U wait_until(env), X exit, F fail, XO exit_on(env), FO fail_on(env),
 SP/SC/CA/SO(child): PT_SPAWN / PT_SPAWN_AND_CHECK / PT_CALL / PT_SPAWN followed by an effect that reports
-PT_CHILD_OK().  Compound: IF(env){...}else{...}, FOR(v=0;v<2;v++){...} with a persistent loop variable.
+PT_CHILD_OK().  Compound: IF(env){...}else{...}, FOR(v=0;v<2;v++){...} with a persistent loop variable; and the unbraced forms
+IFU "if (env) STMT; [else STMT;]" and FORU "for (...) STMT;" whose body is one PT_* statement without braces.
 After every statement an effect with a unique number is emitted, so the sequence of side effects identifies
 the path taken.
 """
@@ -37,7 +38,17 @@ def atoms(depth_children):
     return a
 
 
+def unbraced_atoms():
+    """atoms that are ONE statement in C and may therefore be the unbraced body of an if / else / for
+    (SO is this generator's own two-statement composite and is left out)"""
+    return [a for a in atoms(0) if not (isinstance(a, tuple) and a[0] == 'SO')]
+
+
 def size(item):
+    if isinstance(item, tuple) and item[0] == 'IFU':
+        return 2 + (1 if item[2] is not None else 0)
+    if isinstance(item, tuple) and item[0] == 'FORU':
+        return 2
     if isinstance(item, tuple) and item[0] == 'IF':
         return 1 + sum(size(x) for x in item[1]) + sum(size(x) for x in item[2])
     if isinstance(item, tuple) and item[0] == 'FOR':
@@ -63,6 +74,15 @@ def items(n, nest):
         return
     if nest <= 0:
         return
+    # unbraced forms: "if (c) STMT;", "if (c) STMT; else STMT;", "for (...) STMT;" - a PT_* macro is documented as a statement
+    if n == 2:
+        for a in unbraced_atoms():
+            yield ('IFU', a, None)
+            yield ('FORU', a)
+    if n == 3:
+        for a in unbraced_atoms():
+            for b in unbraced_atoms():
+                yield ('IFU', a, b)
     # IF with then/else bodies (else may be empty), FOR with a non-empty body
     inner = n - 1
     for nt in range(0, inner + 1):
@@ -126,6 +146,27 @@ class Emitter:
             else:
                 C.append(ind + 'PT_CALL(&E->cpt[%d], %s);' % (cdepth, call))
                 V.append(('CALL', c, cdepth))
+        elif s[0] == 'IFU':
+            e = self.env()
+            C.append(ind + 'if (E_env(E, %d))' % e)
+            jz = len(V); V.append(['JZ', e, None])
+            self.stmt(s[1], ind + '\t', loopdepth, cdepth)
+            if s[2] is not None:
+                C.append(ind + 'else')
+                jmp = len(V); V.append(['JMP', None, 0])
+                V[jz][2] = len(V)
+                self.stmt(s[2], ind + '\t', loopdepth, cdepth)
+                V[jmp][1] = len(V)
+            else:
+                V[jz][2] = len(V)
+        elif s[0] == 'FORU':
+            d = loopdepth
+            C.append(ind + 'for (E->v[%d] = 0; E->v[%d] < 2; E->v[%d]++)' % (d, d, d))
+            V.append(('SETV', d, 0))
+            top = len(V); V.append(['JGE2', d, None])
+            self.stmt(s[1], ind + '\t', loopdepth + 1, cdepth)
+            V.append(('INCV', d, 0)); V.append(('JMP', top, 0))
+            V[top][2] = len(V)
         elif s[0] == 'IF':
             e = self.env()
             C.append(ind + 'if (E_env(E, %d)) {' % e)
@@ -180,6 +221,10 @@ def describe(body):
             out.append(s)
         elif s[0] in SPAWNS:
             out.append('%s(c%d)' % s)
+        elif s[0] == 'IFU':
+            out.append('IFU(%s%s)' % (describe([s[1]]), '' if s[2] is None else '|' + describe([s[2]])))
+        elif s[0] == 'FORU':
+            out.append('FORU(%s)' % describe([s[1]]))
         elif s[0] == 'IF':
             out.append('IF{%s}{%s}' % (describe(s[1]), describe(s[2])))
         else:
@@ -192,7 +237,25 @@ def child_depth(c):
     return 1
 
 
+def has_else_unbraced(body):
+    for s in body:
+        if isinstance(s, tuple):
+            if s[0] == 'IFU' and s[2] is not None:
+                return True
+            if s[0] == 'IF' and (has_else_unbraced(s[1]) or has_else_unbraced(s[2])):
+                return True
+            if s[0] == 'FOR' and has_else_unbraced(s[1]):
+                return True
+    return False
+
+
+ELSE_SHARDS = 2
+
+
 def generate(bdir, max_nodes, nest, shards, extra_nodes=0):
+    """shards 0..shards-1: the programs; shards..shards+ELSE_SHARDS-1: the programs that contain "if (c) STMT; else STMT;"
+    (kept apart because they stop compiling when a macro stops being a single statement; each of these shards comes
+    with an empty stand-in c08_progs_<n>_empty.c that the driver compiles instead in that case)"""
     global REDUCED
     progs = []
     for n in range(0, max_nodes + 1):
@@ -216,13 +279,23 @@ def generate(bdir, max_nodes, nest, shards, extra_nodes=0):
             f.write('#line 1 "c08_children_tab"\n')
             f.write('static const ins_t childcode%d[] = {%s};\n' % (i, ', '.join('{%d,%d,%d}' % (OPS.index(o[0]), o[1], o[2]) for o in em.code)))
         f.write('static const prog_t children[] = {%s};\n' % ', '.join('{child%d, childcode%d, "c%d=%s"}' % (i, i, i, describe(b)) for i, b in enumerate(CHILDREN)))
-    per = (len(progs) + shards - 1) // shards
-    for s in range(shards):
+    main = [b for b in progs if not has_else_unbraced(b)]
+    other = [b for b in progs if has_else_unbraced(b)]
+    per = (len(main) + shards - 1) // shards
+    per2 = (len(other) + ELSE_SHARDS - 1) // ELSE_SHARDS
+    chunks = [(s * per, main[s * per:(s + 1) * per]) for s in range(shards)]
+    chunks += [(len(main) + s * per2, other[s * per2:(s + 1) * per2]) for s in range(ELSE_SHARDS)]
+    progs = main + other
+    for s in range(shards, shards + ELSE_SHARDS):
+        with open(os.path.join(bdir, 'c08_progs_%d_empty.c' % s), 'w') as f:
+            f.write('/* stand-in for c08_progs_%d.c */\n#include "c08.h"\nconst prog_t c08_shard_%d[] = { {0, 0, 0} };\n'
+                    'const prog_t *c08_shard_children_%d(void) { return 0; }\n' % (s, s, s))
+    for s, (base, chunk) in enumerate(chunks):
         with open(os.path.join(bdir, 'c08_progs_%d.c' % s), 'w') as f:
-            f.write('/* generated by c08_gen.py: programs %d.. */\n#include "c08.h"\n#include "c08_children.h"\n' % (s * per))
+            f.write('/* generated by c08_gen.py: programs %d.. */\n#include "c08.h"\n#include "c08_children.h"\n' % base)
             names = []
-            for i, b in enumerate(progs[s * per:(s + 1) * per]):
-                idx = s * per + i
+            for i, b in enumerate(chunk):
+                idx = base + i
                 em = emit_function('prog%d' % idx, b, 0)
                 f.write('\n'.join(em.c) + '\n')
                 f.write('#line 1 "c08_tab"\n')
@@ -233,10 +306,10 @@ def generate(bdir, max_nodes, nest, shards, extra_nodes=0):
                 f.write(' {prog%d, code%d, "%s"},\n' % (idx, idx, d))
             f.write(' {0, 0, 0}\n};\nconst prog_t *c08_shard_children_%d(void) { return children; }\n' % s)
     with open(os.path.join(bdir, 'c08_shards.h'), 'w') as f:
-        for s in range(shards):
+        for s in range(shards + ELSE_SHARDS):
             f.write('extern const prog_t c08_shard_%d[]; const prog_t *c08_shard_children_%d(void);\n' % (s, s))
-        f.write('static const prog_t *const c08_shards[] = {%s};\n' % ', '.join('c08_shard_%d' % s for s in range(shards)))
-        f.write('#define C08_NSHARDS %d\n#define C08_NPROGS %d\n' % (shards, len(progs)))
+        f.write('static const prog_t *const c08_shards[] = {%s};\n' % ', '.join('c08_shard_%d' % s for s in range(shards + ELSE_SHARDS)))
+        f.write('#define C08_NSHARDS %d\n#define C08_NPROGS %d\n' % (shards + ELSE_SHARDS, len(progs)))
     return len(progs)
 
 
